@@ -22,6 +22,7 @@ type nodeDesc struct {
 	Salt int    `json:"salt,omitempty"`
 	Init int    `json:"init,omitempty"`
 	Fail bool   `json:"fail,omitempty"` // struct kinds: Process() returns an error when its hash is divisible by 3
+	Pan  bool   `json:"pan,omitempty"`  // struct kinds: Process() panics when its hash is divisible by 5
 }
 type opDesc struct {
 	Op   string `json:"op"` // set | connect | disconnect | read
@@ -99,21 +100,29 @@ func (m *mirror) pathLoad() int {
 	}
 	return t
 }
-func (m *mirror) scratch(n int) int {
+// from-scratch evaluation; ok = false: the evaluation panics (inputs in declaration order, first panic aborts)
+func (m *mirror) scratch(n int) (v int, ok bool) {
 	if isParam(m.desc[n].Kind) {
-		return m.val[n]
+		return m.val[n], true
 	}
 	acc := m.desc[n].Salt
 	for _, p := range m.ports[n] {
 		acc = (acc*37 + 11 + len(p)) % hmod
 		for _, d := range p {
-			acc = (acc*31 + m.scratch(d)) % hmod
+			x, ok := m.scratch(d)
+			if !ok {
+				return 0, false
+			}
+			acc = (acc*31 + x) % hmod
 		}
 	}
-	if m.desc[n].Fail && acc%3 == 0 {
-		return hmod + acc
+	if m.desc[n].Pan && acc%5 == 0 {
+		return 0, false
 	}
-	return acc
+	if m.desc[n].Fail && acc%3 == 0 {
+		return hmod + acc, true
+	}
+	return acc, true
 }
 
 // the documented meaning of SetInput on the mirror: "F" sets/clears a field, "F.k" appends / deletes at k
@@ -188,7 +197,7 @@ func buildLive(ns []nodeDesc) []*live {
 			p := nodes.Value(n.Init)
 			ls[i] = &live{node: p, ref: p.Out(), value: func() int { return p.Value() }, set: func(v int) error { p.Set(v); return nil }}
 		default:
-			ls[i] = newStruct(n.Kind, n.Salt, n.Fail)
+			ls[i] = newStruct(n.Kind, n.Salt, n.Fail, n.Pan)
 		}
 	}
 	return ls
@@ -265,6 +274,17 @@ func runHist(run *hx.Run, d histDesc) {
 		}
 	}
 	b.WriteString("]\n  [")
+	for i, n := range d.Nodes {
+		if i > 0 {
+			b.WriteString(";")
+		}
+		if !isParam(n.Kind) && n.Pan {
+			fmt.Fprintf(&b, "Some %d", n.Salt)
+		} else {
+			b.WriteString("None")
+		}
+	}
+	b.WriteString("]\n  [")
 	prev, fail := table(ls)
 	for i, r := range prev {
 		if i > 0 {
@@ -274,7 +294,7 @@ func runHist(run *hx.Run, d histDesc) {
 	}
 	b.WriteString("]\n  [")
 	kept := []opDesc{}
-	execReads, edits, rejected := 0, 0, 0
+	execReads, edits, rejected, panickedReads := 0, 0, 0, 0
 	for _, o := range d.Ops {
 		if o.N < 0 || o.N >= len(d.Nodes) {
 			continue
@@ -310,6 +330,11 @@ func runHist(run *hx.Run, d histDesc) {
 		if cl == "crash" && fail == "" {
 			fail = fmt.Sprintf("op %d %+v: runtime panic: %s", len(kept)-1, o, msg)
 		}
+		panicked := o.Op == "read" && cl == "declared" && msg == errPanic.Error()
+		if panicked {
+			cl = "" // not a rejection: the read failed because a processor panicked; what completed before stays
+			panickedReads++
+		}
 		acc := cl == ""
 		if acc {
 			mir.apply(o)
@@ -339,10 +364,14 @@ func runHist(run *hx.Run, d histDesc) {
 		prev = cur
 		vs, ss := "None", "None"
 		if acc && o.Op == "read" {
-			vs = fmt.Sprintf("(Some %d%%Z)", val)
-			ss = fmt.Sprintf("(Some %d%%Z)", mir.scratch(o.N))
+			if !panicked {
+				vs = fmt.Sprintf("(Some %d%%Z)", val)
+			}
+			if sv, ok := mir.scratch(o.N); ok {
+				ss = fmt.Sprintf("(Some %d%%Z)", sv)
+			}
 		}
-		fmt.Fprintf(&b, "(%s, Obs %s %s %s [%s])", coqOp(o), hx.CoqBool(!acc), vs, ss, strings.Join(chg, ";"))
+		fmt.Fprintf(&b, "(%s, Obs %s %s %s %s [%s])", coqOp(o), hx.CoqBool(!acc), hx.CoqBool(panicked), vs, ss, strings.Join(chg, ";"))
 	}
 	b.WriteString("]")
 	d.Ops = kept
@@ -360,6 +389,9 @@ func runHist(run *hx.Run, d histDesc) {
 	}
 	if failedRuns > 0 {
 		run.Count("with-failed-Process")
+	}
+	if panickedReads > 0 {
+		run.Count("with-panicked-read")
 	}
 	maxArr := 0
 	for n := range mir.ports {
